@@ -82,11 +82,18 @@ def mutants_of(rel, src):
 
 
 def run(cmd, cwd, env, timeout=900):
+    import signal
+    pr = subprocess.Popen(cmd, cwd=cwd, env=env, stdout=subprocess.PIPE, stderr=subprocess.STDOUT, text=True, start_new_session=True)
     try:
-        p = subprocess.run(cmd, cwd=cwd, env=env, stdout=subprocess.PIPE, stderr=subprocess.STDOUT, text=True, timeout=timeout)
-        return p.returncode, p.stdout
+        out, _ = pr.communicate(timeout=timeout)
+        return pr.returncode, out
     except subprocess.TimeoutExpired:
         return -9, 'TIMEOUT'
+    finally:
+        try:
+            os.killpg(pr.pid, signal.SIGKILL)   # the test binary is a grandchild of cargo: a hung mutant must not survive
+        except Exception:
+            pass
 
 
 def summary(out):
